@@ -38,7 +38,7 @@ def run_batch(batch):
 
 
 def run(ctx):
-    n = 220 if ctx.thorough else 36
+    n = 100 if ctx.thorough else 36      # thorough: ~2800 runs (about 50 min on 16 idle cores)
     wfs = [C03.all_outs(wc.sample(ctx.rng, 3 if i % 2 else 4)) for i in range(3 * n)] + [C03.all_outs(w) for w in wc.diamond_family()]
     nest = [C03.all_outs(wc.nested_sample(ctx.rng, 2 + i % 3)) for i in range(n)]       # nested-workflow nodes (WfState!JobTerm)
     # splits over upstream outputs, list-maker nodes, nodes with ZERO jobs (empty-split family: always kept)
